@@ -3,10 +3,11 @@ from .. import checklib, staticprop
 
 
 def run(ctx):
+    # explicit predicate spellings other than P0..P3 name no architectural register: not part of the domain
     return staticprop.run_static_property(
         ctx, "meta", "attribute list differs from the part's own text",
         "Attrs!Attr(syntax tree of the part) versus the reported list (as a set, duplicates flagged); no-op list => NONE",
-        gen=(("Gen_C05.tla", 2),), n_corpus=(300, None))
+        gen=(("Gen_C05.tla", 2), ("Gen_C07.tla", 1), ("Gen_C13.tla", 1)), n_corpus=(300, None), gen_kind="insn")
 
 
 if __name__ == "__main__":
